@@ -248,10 +248,19 @@ impl<'a, R: RoleX, T: IsPacketId> Gen<'a, R, T> {
             let ps = self.conn_props(false);
             self.peer_mps = ps.iter().find_map(|p| if let P::U32(39, m) = p { Some(*m) } else { None });
             let ka = self.ka();
-            let lvl = if !force_ok && self.rng.chance(1, 25) { *self.rng.pick(&[3u8, 6, 0]) } else { v };
+            // (an endpoint whose version is still undetermined meets clients of unsupported levels more often)
+            let odd = if self.s.version() == 0 { 5 } else { 25 };
+            let lvl = if !force_ok && self.rng.chance(1, odd) { *self.rng.pick(&[3u8, 3, 6, 0]) } else { v };
             let mut bytes = w_connect(v, clean, ka, b"cid", &ps);
             if lvl != v {
                 bytes[8] = lvl;
+                if lvl == 3 && self.rng.chance(1, 2) {
+                    // a real MQTT 3.1 client: protocol name "MQIsdp", level 3
+                    let mut b = vec![0x00, 0x06, b'M', b'Q', b'I', b's', b'd', b'p', 0x03, if clean { 0x02 } else { 0x00 }, 0x00, 0x0a, 0x00, 0x03, b'c', b'i', b'd'];
+                    let mut f = vec![0x10, b.len() as u8];
+                    f.append(&mut b);
+                    bytes = f;
+                }
             } else if !force_ok && self.rng.chance(1, 12) {
                 // a CONNECT the parser refuses (both versions answer with a refusing CONNACK, then close)
                 match self.rng.below(5) {
@@ -587,8 +596,8 @@ impl<'a, R: RoleX, T: IsPacketId> Gen<'a, R, T> {
         let v = self.ver();
         let pw = self.pw();
         // filters: plain, non-ASCII (multi-byte characters at various byte offsets), shared
-        const FILTERS: [&[u8]; 8] = [b"f/#", b"x", "se\u{f1}al\u{e9}s/#".as_bytes(), "\u{65e5}\u{672c}\u{8a9e}/+".as_bytes(), "sensor\u{20ac}/t".as_bytes(),
-            b"$share/g/t", "$share/\u{e9}/t".as_bytes(), "abcdef\u{1f600}".as_bytes()];
+        const FILTERS: [&[u8]; 10] = [b"f/#", b"x", "se\u{f1}al\u{e9}s/#".as_bytes(), "\u{65e5}\u{672c}\u{8a9e}/+".as_bytes(), "sensor\u{20ac}/t".as_bytes(),
+            b"$share/g/t", "$share/\u{e9}/t".as_bytes(), "abcdef\u{1f600}".as_bytes(), b"$share", b"$shared/x"];
         match self.rng.below(6) {
             0 | 1 => {
                 let id = self.fresh_id();
@@ -1165,12 +1174,17 @@ fn walk<R: RoleX, T: IsPacketId>(role: &'static str, ver: u8, steps: usize, rng:
         if let Some(b) = wide {
             if g.status() == "C" {
                 let q1 = (b[0] >> 1) & 3 > 0;
+                let mut ok = true;
                 if q1 {
+                    // (contract: the identifier is handed to a send only if the application obtained it)
                     g.op("register 1".into());
+                    ok = g.last_ret() == "ok";
                 }
-                g.op(format!("send 5 {}", hex(&b)));
-                if q1 {
-                    g.after_send(1);
+                if ok {
+                    g.op(format!("send 5 {}", hex(&b)));
+                    if q1 {
+                        g.after_send(1);
+                    }
                 }
             }
         }
